@@ -26,7 +26,7 @@ from vf.props.c01 import stream
 ID = 'C20'
 LEVEL = 'exploration'
 RULE = ('Hypothesis draws the timeout, the connection state (tunnel / keep-alive / half-request), the mode (threadless / threaded) and '
-        '1..6 steps (gap, action); gaps are drawn from {timeout-1s, timeout-1ms, timeout, timeout+1ms, timeout+1s, timeout/2, 3*timeout, '
+        '1..6 steps (gap, action; actions: client send, nothing, origin data small / flood left pending, client drain, origin close, and for tunnels a client upload burst towards an origin that stops reading followed by partial origin reads); gaps are drawn from {timeout-1s, timeout-1ms, timeout, timeout+1ms, timeout+1s, timeout/2, 3*timeout, '
         '0}. Non-trivial: some checkpoint lies within 1 s of the threshold, or output is pending while idle >> timeout; '
         'distinct by case hash.')
 ASSUMPTIONS = ['the handler reads the clock only through its module-level `time` (rebound to the virtual clock)',
